@@ -9,5 +9,7 @@ W=$(mktemp -d /var/tmp/knx-verif-setup.XXXXXX)
 trap 'rm -rf "$W"' EXIT
 bin/mcgen -repo /repo -out "$W" -mc "$PWD/mc" -hooks "$PWD/hooks"
 go build -tags verif -overlay "$W/overlay.json" -o "$W/mccheck" ./harness/cmd/mccheck
-go build -tags verif -o "$W/enumcheck" ./enum/cmd/enumcheck
+go build -o bin/globgen ./enum/cmd/globgen
+bin/globgen -repo /repo -out "$W" knx/dpt knx/cemi knx/knxnet knx/util
+go build -tags verif -overlay "$W/globals-overlay.json" -o "$W/enumcheck" ./enum/cmd/enumcheck
 echo setup ok
